@@ -20,7 +20,24 @@ def scenarioTables : Option Tables := do
   let d1 ← add [] "/d/:tag" 5
   pure [(get, g2), (post, p1), (put, u1), (del, d1)]
 
+def routeAnswer (mtxt hp : String) (notFoundBody : String) : Option String := do
+    let m ← methodIndex mtxt
+    let path ← fromHex hp
+    let t ← scenarioTables
+    let (t', a) := route false t m path
+    let tail := s!" tables={t'.length}"
+    match a with
+    | .handled _ params _ =>
+      let tag := (params.find? (fun p => p.1 == bytes ":tag")).map (·.2) |>.getD []
+      pure (s!"200 body={toHex (bytes mtxt ++ [58] ++ tag)}" ++ tail)
+    | .notAllowed ms =>
+      let names := sortStrs (ms.map methodText')
+      pure (s!"405 body={toHex (bytes "Method Not Allowed")} allow={"+".intercalate names}" ++ tail)
+    | .notFound => pure (s!"404 body={toHex (bytes notFoundBody)}" ++ tail)
+
 def serveOp : List String → Option String
+  -- a custom not-found handler only replaces the default 404 answer: the 405 decision comes first
+  | ["routenf", mtxt, hp] => routeAnswer mtxt hp "custom-nf"
   | ["route", mtxt, hp] => do
     let m ← methodIndex mtxt
     let path ← fromHex hp
